@@ -14,7 +14,19 @@ def run(F, R):
     # ---------------------------------------------------------------- R1 deserialisation schema
     R.rule("C16-R1", "the deserialisation schema extracted from the Deserialize impls (keys, required/optional, type widths, flatten catch-alls, status identifiers) covers the Omaha v3 response table")
     n = 0
+    # the document wrapper is whatever type parse_json_response parses into (it is a private helper type: its path is not
+    # part of the protocol, its shape {"response": Response} is)
+    wrapper_ty = None
+    pj0 = [b for b in lib.bodies(c, item="parse_json_response", kind="fn")]
+    if pj0:
+        for _, t0 in BV.of(pj0[0]).calls():
+            if lib.callee_is(t0, "protocol::response::parse_safe_json"):
+                tys0 = [lib.norm(c.types[x]["s"]) for x in t0.get("substs", []) if isinstance(x, int)]
+                if len(tys0) == 1:
+                    wrapper_ty = tys0[0]
     for ty, exp in table["structs"].items():
+        if ty.endswith("::ResponseWrapper") and wrapper_ty and schema.de_schema(W, c, ty) is None:
+            ty = wrapper_ty
         s = schema.de_schema(W, c, ty)
         short = ty.split("::")[-1]
         if s is None or s.get("kind") != "struct":
@@ -67,7 +79,9 @@ def run(F, R):
         R.check("C16-R2", "wrapper-only", not extra and not pj.sccs(), "parse_json_response only unwraps {\"response\": ..}", "parse_json_response post-processes the parsed response (%s%s): values are no longer preserved as sent" % (extra, ", loop" if pj.sccs() else ""))
         call = [t for _, t in pj.calls() if lib.callee_is(t, "protocol::response::parse_safe_json")]
         tys = [lib.norm(c.types[x]["s"]) for t in call for x in t.get("substs", []) if isinstance(x, int)]
-        R.check("C16-R2", "wrapper-type", tys == ["protocol::response::parse_json_response::ResponseWrapper"], str(tys), "parse_safe_json is instantiated at %s" % tys)
+        wsch = schema.de_schema(W, c, tys[0]) if len(tys) == 1 else None
+        wkeys = [(f_["key"], f_["required"], f_["type"]) for f_ in (wsch or {}).get("fields", [])]
+        R.check("C16-R2", "wrapper-type", wkeys == [("response", True, "protocol::response::Response")], "parsed as %s = {\"response\": Response}" % tys, "parse_safe_json is instantiated at %s, which reads %s" % (tys, wkeys))
     if ps:
         fs = [(bi, t) for bi, t in ps.calls() if lib.callee_is(t, "serde_json::from_slice")]
         R.check("C16-R2", "two-branches-one-parser", len(fs) in (1, 2) and len(set(tuple(t.get("substs", [])) for _, t in fs)) == 1, "every branch parses with serde_json::from_slice::<T>", "parser calls: %s" % [lib.norm(t.get("callee")) for _, t in ps.calls()])
